@@ -401,11 +401,60 @@ v("c14-reconcile-starts-cluster-id", "C14", "C14.e", [(MGR, "\tfor id, tbl := ra
 v("c15-versions-per-key", "C15", "C15.d2", [("storage/kv/raft.go", "\t\tupdate.KVPair.Ver = ent.Index\n", "\t\tif cur, err := fsm.store.Get(update.KVPair.Key); err == nil {\n\t\t\tupdate.KVPair.Ver = cur.Ver + 1\n\t\t} else {\n\t\t\tupdate.KVPair.Ver = 1\n\t\t}\n\t\t_ = ent.Index\n")], "agent change C15-m2")
 v("c12-v1-fixed-buffer", "C12", "C12.a", [("storage/table/key/v1.go", "\tbytes := make([]byte, 1+len(k.key))\n\tbytes[0] = byte(k.keyType)\n\tcopy(bytes[1:], k.key)\n\treturn writer.Write(bytes[:])", "\tvar bytes [keyV1BodyLen]byte\n\tbytes[0] = byte(k.keyType)\n\tn := copy(bytes[1:], k.key)\n\treturn writer.Write(bytes[:1+n])")], "agent change C12-m1")
 
+
+SEQ = "storage/table/fsm/command_sequence.go"
+v("c01-sequence-stops-at-noop", "C01", "C01.i", [(SEQ, "\tfor _, cmd := range c.Sequence {\n\t\t_, cmdRes, err := wrapCommand(cmd).handle(ctx)", "\tfor i, cmd := range c.Sequence {\n\t\tif i > 0 && cmd.Type == regattapb.Command_DUMMY {\n\t\t\tbreak\n\t\t}\n\t\t_, cmdRes, err := wrapCommand(cmd).handle(ctx)")])
+v("c01-sequence-drops-last", "C01", "C01.i", [(SEQ, "\tfor _, cmd := range c.Sequence {", "\tfor _, cmd := range c.Sequence[:len(c.Sequence)-1] {")])
+v("c03-delete-batch-from-one", "C03", "C03.f", [("storage/table/fsm/command_delete.go", "\tfor i, op := range ops {\n\t\tres, err := handleDelete(ctx, op)", "\tfor i := 1; i < len(ops); i++ {\n\t\top := ops[i]\n\t\tres, err := handleDelete(ctx, op)")])
+v("c01-n-sequence-index-loop", "C01", "none", [(SEQ, "\tfor _, cmd := range c.Sequence {", "\tfor i := 0; i < len(c.Sequence); i++ {\n\t\tcmd := c.Sequence[i]")])
+v("c05-batching-skips-first", "C05", "C05.b", [(WRK, "\tfor i, c := range commands {\n\t\tseq.Sequence = append(seq.Sequence, c.Command)", "\tfor i, c := range commands[1:] {\n\t\tseq.Sequence = append(seq.Sequence, c.Command)")])
+v("c06-convert-drops-last", "C06", "C06.c", [(REPL, "\t\tfor _, e := range entries {\n\t\t\tif cmd, err := entryToCommand(e); err != nil {", "\t\tfor _, e := range entries[:len(entries)-1] {\n\t\t\tif cmd, err := entryToCommand(e); err != nil {")])
+
+# ---------------- rules added after the round-2 ("less obvious places") sub-agent changes ----------------
+TXN = "storage/table/fsm/command_txn.go"
+v("c02-empty-value-predicate-skipped", "C02", "C02.c", [(TXN, "\tif cmp.Target == regattapb.Compare_VALUE && cmp.TargetUnion != nil {", "\tif cmp.Target == regattapb.Compare_VALUE && len(cmp.GetValue()) > 0 {")], "agent change C02-m3 (round 2)")
+v("c02-sequence-stops-after-failed-txn", "C02", "C02.g", [(SEQ, "\t\t_, cmdRes, err := wrapCommand(cmd).handle(ctx)\n\t\tif err != nil {\n\t\t\treturn ResultFailure, nil, err\n\t\t}\n\t\tres.Responses = append(res.Responses, cmdRes.Responses...)", "\t\tr, cmdRes, err := wrapCommand(cmd).handle(ctx)\n\t\tif err != nil {\n\t\t\treturn ResultFailure, nil, err\n\t\t}\n\t\tres.Responses = append(res.Responses, cmdRes.Responses...)\n\t\tif r == ResultFailure {\n\t\t\treturn ResultFailure, res, nil\n\t\t}")], "agent change C02-m2 (round 2)")
+v("c03-leader-index-max", "C03", "C03.b", [(CMD, "\tif cmd.LeaderIndex != nil {\n\t\tc.leaderIndex = cmd.LeaderIndex\n\t}", "\tif cmd.LeaderIndex != nil && (c.leaderIndex == nil || *cmd.LeaderIndex > *c.leaderIndex) {\n\t\tc.leaderIndex = cmd.LeaderIndex\n\t}")], "agent change C03-m3 (round 2)")
+v("c03-recover-format-from-config", "C03", "C03.g", [(FSM, "\treturn p.getRecoverer(header.snapshotType()).recover(r, stopc)", "\t_ = header.snapshotType()\n\treturn p.getRecoverer(p.recoveryType).recover(r, stopc)")], "agent change C03-m2 (round 2)")
+v("c01-v1-fixed-buffer", "C01", "C01.j1", [("storage/table/key/v1.go", "\tbytes := make([]byte, 1+len(k.key))\n\tbytes[0] = byte(k.keyType)\n\tcopy(bytes[1:], k.key)\n\treturn writer.Write(bytes[:])", "\tvar bytes [V1KeyLen]byte\n\tbytes[0] = byte(k.keyType)\n\tn := copy(bytes[1:], k.key)\n\treturn writer.Write(bytes[:1+n])")], "agent change C01-m3 (round 2)")
+v("c05-reconcile-returns-on-empty-leader", "C05", "C05.g", [(RPL, "\tvar toCreate, toDelete []string\n", "\tif len(leaderTables) == 0 {\n\t\treturn nil\n\t}\n\tvar toCreate, toDelete []string\n")], "agent change C05-m3 (round 2)")
+LOGR = "storage/logreader/logreader.go"
+v("c06-prepend-without-adjacency", "C06", "C06.d", [(LOGR, "\t\t} else if len(cachedEntries) > 0 && le[len(le)-1].Index == cachedEntries[0].Index-1 {", "\t\t} else if len(cachedEntries) > 0 {")], "agent changes C05-m1 / C06-m4 (round 2)")
+v("c05-prepend-without-adjacency", "C05", "C05.d4", [(LOGR, "\t\t} else if len(cachedEntries) > 0 && le[len(le)-1].Index == cachedEntries[0].Index-1 {", "\t\t} else if len(cachedEntries) > 0 {")])
+v("c06-compaction-event-wrong-type", "C06", "C06.d", [("storage/engine_events.go", "\tcase e.eventsCh <- logCompacted{", "\tcase e.eventsCh <- logDBCompacted{")], "agent change C06-m1 (round 2)")
+v("c06-cache-shifts-in-place", "C06", "C06.d", [("storage/logreader/cache.go", "\t\tc.buffer = c.buffer[len(entries)+len(c.buffer)-c.size:]", "\t\tc.buffer = c.buffer[:copy(c.buffer, c.buffer[len(entries)+len(c.buffer)-c.size:])]")], "agent change C06-m2 (round 2)")
+v("c15-n-leased-is-outcome", "C15", "none", [(WRK, "\t\t\t\tif err == nil {\n\t\t\t\t\tprev := w.leased.Swap(true)\n\t\t\t\t\tif !prev {\n\t\t\t\t\t\tw.metrics.replicationLeased.Set(1)\n\t\t\t\t\t}\n\t\t\t\t} else {\n\t\t\t\t\tprev := w.leased.Swap(false)\n\t\t\t\t\tif prev {\n\t\t\t\t\t\tw.metrics.replicationLeased.Set(0)\n\t\t\t\t\t}\n\t\t\t\t}", "\t\t\t\tleased := err == nil\n\t\t\t\tif prev := w.leased.Swap(leased); prev != leased {\n\t\t\t\t\tif leased {\n\t\t\t\t\t\tw.metrics.replicationLeased.Set(1)\n\t\t\t\t\t} else {\n\t\t\t\t\t\tw.metrics.replicationLeased.Set(0)\n\t\t\t\t\t}\n\t\t\t\t}")])
+v("c15-leased-is-inverted-outcome", "C15", "C15.c", [(WRK, "\t\t\t\tif err == nil {\n\t\t\t\t\tprev := w.leased.Swap(true)\n\t\t\t\t\tif !prev {\n\t\t\t\t\t\tw.metrics.replicationLeased.Set(1)\n\t\t\t\t\t}\n\t\t\t\t} else {\n\t\t\t\t\tprev := w.leased.Swap(false)\n\t\t\t\t\tif prev {\n\t\t\t\t\t\tw.metrics.replicationLeased.Set(0)\n\t\t\t\t\t}\n\t\t\t\t}", "\t\t\t\tleased := err != nil\n\t\t\t\tif prev := w.leased.Swap(leased); prev != leased {\n\t\t\t\t\tif leased {\n\t\t\t\t\t\tw.metrics.replicationLeased.Set(1)\n\t\t\t\t\t} else {\n\t\t\t\t\t\tw.metrics.replicationLeased.Set(0)\n\t\t\t\t\t}\n\t\t\t\t}")])
+
 # ---------------- behaviour-preserving refactorings written by sub-agents (neutral/<set>/<n>/patch.diff) ----------------
 def vp(id, prop, expect, patches, note=""):
     V.append({"id": id, "prop": prop, "expect": expect, "note": note, "edits": [], "patch": patches})
 
 NEUTRAL = {
+    'neutral/setE/n1': ['C01', 'C02', 'C03', 'C04', 'C07', 'C08', 'C10', 'C11', 'C12', 'C14', 'C16'],
+    'neutral/setE/n10': ['C12'],
+    'neutral/setE/n11': ['C04', 'C08'],
+    'neutral/setE/n12': ['C02', 'C09', 'C10', 'C14'],
+    'neutral/setE/n2': ['C01', 'C02', 'C03', 'C04', 'C07', 'C08', 'C10', 'C11', 'C12', 'C14', 'C16'],
+    'neutral/setE/n3': ['C01', 'C03', 'C04', 'C09', 'C10', 'C12'],
+    'neutral/setE/n4': ['C01', 'C03', 'C04', 'C05', 'C10', 'C12'],
+    'neutral/setE/n5': ['C02'],
+    'neutral/setE/n6': ['C01', 'C02'],
+    'neutral/setE/n7': ['C01', 'C08', 'C09', 'C12', 'C16'],
+    'neutral/setE/n8': ['C03', 'C04', 'C08', 'C18'],
+    'neutral/setE/n9': ['C03', 'C04', 'C08'],
+    'neutral/setF/n1': ['C11'],
+    'neutral/setF/n10': ['C05', 'C06', 'C07', 'C10', 'C18'],
+    'neutral/setF/n11': ['C05', 'C15', 'C18'],
+    'neutral/setF/n12': ['C17'],
+    'neutral/setF/n2': ['C05', 'C06'],
+    'neutral/setF/n3': ['C05', 'C06'],
+    'neutral/setF/n4': ['C05', 'C06'],
+    'neutral/setF/n5': ['C13', 'C15', 'C16'],
+    'neutral/setF/n6': ['C13'],
+    'neutral/setF/n7': ['C05', 'C07', 'C11', 'C14', 'C15'],
+    'neutral/setF/n8': ['C05', 'C07', 'C14', 'C15'],
+    'neutral/setF/n9': ['C02', 'C09', 'C10', 'C11', 'C16'],
     'neutral/setC/n1': ['C01', 'C02', 'C03', 'C04', 'C07', 'C08', 'C10', 'C11', 'C12', 'C14', 'C16'],
     'neutral/setC/n10': ['C13'],
     'neutral/setC/n11': ['C02', 'C09', 'C10', 'C11', 'C16'],
